@@ -354,7 +354,7 @@ func init() {
 		}
 		add := func(level, md string, lens []int, codes []int32) {
 			all := headerCuts(md, level, lens)
-			scs = append(scs, c08Scenario{level: level, md: md, lens: lens, codes: codes})              // in one piece
+			scs = append(scs, c08Scenario{level: level, md: md, lens: lens, codes: codes})            // in one piece
 			scs = append(scs, c08Scenario{level: level, md: md, lens: lens, codes: codes, cuts: all}) // every interesting cut
 			for _, c := range all {
 				scs = append(scs, c08Scenario{level: level, md: md, lens: lens, codes: codes, cuts: []int{c}})
